@@ -410,6 +410,10 @@ func (h *Hashgraph) checkSelfParent(event *Event) error {
 	if err != nil {
 		// First Event
 		if common.IsStore(err, common.Empty) && selfParent == "" {
+			// The first Event of a creator starts its chain at index 0
+			if event.Index() != 0 {
+				return NewSelfParentError("First event of creator must have index 0", false)
+			}
 			return nil
 		}
 		// This is not a normal error
@@ -423,6 +427,17 @@ func (h *Hashgraph) checkSelfParent(event *Event) error {
 	// concurrently by multiple go-routines.
 	if !selfParentLegit {
 		return NewSelfParentError("Self-parent not last known event by creator", true)
+	}
+
+	// The Event must extend its creator's chain by exactly one: its index is
+	// the self-parent's index plus one. Otherwise the per-creator index of
+	// events would skip, repeat or overwrite positions.
+	selfParentEvent, err := h.Store.GetEvent(selfParent)
+	if err != nil {
+		return NewSelfParentError(err.Error(), false)
+	}
+	if event.Index() != selfParentEvent.Index()+1 {
+		return NewSelfParentError("Event index is not self-parent index plus one", false)
 	}
 
 	return nil
